@@ -10,7 +10,7 @@ def load(p):
                 r = json.loads(l); r["mutant"] = r["mutant"].split("/")[-1]; out[r["mutant"]] = r
     return out
 base = load(os.path.join(ROOT, "seeded", "RESULTS.baseline.jsonl"))
-for extra in ("RESULTS.baseline.round2.jsonl", "RESULTS.baseline.round2b.jsonl", "RESULTS.baseline.round3.jsonl"):
+for extra in ("RESULTS.baseline.round2.jsonl", "RESULTS.baseline.round2b.jsonl", "RESULTS.baseline.round3.jsonl", "RESULTS.baseline.round3b.jsonl"):
     base.update(load(os.path.join(ROOT, "seeded", extra)))
 final = load(os.path.join(ROOT, "seeded", "RESULTS.jsonl"))
 final_target = load(os.path.join(ROOT, "seeded", "RESULTS.final-target.jsonl"))
